@@ -2,10 +2,10 @@
 # For every seeded change: apply it to /repo, run every property's quick check, record which
 # checks report a violation (and whether with a failing input), undo it. Writes seeded/MATRIX.tsv.
 cd /verif
-out=seeded/MATRIX.tsv
+out=${MATRIX_OUT:-seeded/MATRIX.tsv}
 echo -e "mutant\ttarget\tcheck\tresult" > $out
-for d in seeded/M-*; do
-  m=$(basename $d); target=$(python3 -c "import json;print(json.load(open('$d/meta.json'))['property'])")
+for d in ${MATRIX_ONLY:-seeded/M-* seeded/B?}; do
+  m=$(basename $d); target=$(python3 -c "import json;print(json.load(open('$d/meta.json')).get('property','benign'))")
   git -C /repo checkout -q -- . ; git -C /repo apply /verif/$d/patch.diff || { echo -e "$m\t$target\t-\tPATCH-FAILED" >> $out; continue; }
   for p in C01 C02 C03 C04 C05 C06 C07 C08 C09 C10 C11 C12 C13 C14 C15 C16 C17 C18 C19 C20; do
     r=$(./check $p 2>&1 | grep VIOLATION | head -1)
